@@ -5,6 +5,7 @@ Ownership rule over every @builder method x every concrete receiver class (DESIG
 from __future__ import annotations
 
 import ast
+from dataclasses import replace
 
 from ..effects import Effects, org_str
 from ..families import is_observer
@@ -249,6 +250,7 @@ def check(program: Program, run: Run) -> None:
     run.rule("R3 arg-write: WRITE param.x allowed only for x == alias under an 'alias is None' guard")
     run.rule("R4b the immutable switch the decorator consults is only turned off by the caller: no class attribute / assignment / constructor default sets it to a falsy constant")
     run.rule("R4 decorator shape: copy.copy under immutable default True; method applied to the copy; copy returned for None")
+    run.rule("R6 a method that is not builder-decorated yet returns the receiver or an object capturing it does not write the receiver")
     run.rule("R5 copy protocol: root __copy__ starts from full __dict__; overrides call super().__copy__()")
     run.assumptions += [
         "class-hierarchy call resolution: no monkey-patching, no user subclasses overriding helpers",
@@ -393,6 +395,57 @@ def check(program: Program, run: Run) -> None:
             for r in sorted(v["recvs"]):
                 run.finding(f"{key}@{r}", v["what"], where=v["where"], rule=key.split(":")[0], path=v["path"],
                             excerpt=f.module.excerpt(int(v["where"].rsplit(":", 1)[1]), 2))
+    # R6: a method that is not builder-decorated but hands the raw receiver on (returns it, or builds a
+    # continuation object capturing it) is a builder method in the property's sense; it may not write the receiver.
+    SELF = ("self", None, ())
+    fluent_seen = 0
+    raw: dict[str, dict] = {}
+    for c in classes:
+        names = []
+        for k in c.mro:
+            for n in k.methods:
+                if n not in names:
+                    names.append(n)
+        for n in names:
+            g = c.resolve(n)
+            if g is None or g.is_builder or n.startswith("__") or is_observer(g):
+                continue
+            eng.fixpoint([(g, c)])
+            gs = eng.summary(g, c)
+            hands_on = SELF in gs.returns or any(SELF in orgs for (_k, cap, _l) in gs.constructed for orgs in cap.values())
+            if not hands_on:
+                continue
+            fluent_seen += 1
+            effs = list(gs.effects)
+            for (kc, captured, _cloc) in gs.constructed:          # continuations applied to the raw receiver
+                for attr, orgs in captured.items():
+                    if SELF not in orgs:
+                        continue
+                    for m in [m for k in kc.mro for m in k.methods if m != "__init__"]:
+                        h = kc.resolve(m)
+                        if h is None or is_observer(h):
+                            continue
+                        eng.fixpoint([(h, kc)])
+                        for e in eng.summary(h, kc).effects:
+                            if e.org[0] == "self" and e.org[2][:1] == (attr,) and len(e.org[2]) > 1:
+                                effs.append(replace(e, org=("self", None, e.org[2][1:])))
+            writes = [e for e in effs if e.org[0] == "self" and e.org[2] and "*" not in e.org[2]
+                      and not (e.kind == "rebind" and e.org[2][-1] == "alias" and _alias_none_guard(e.guards))]
+            run.ob("C01/R6 non-builder method handing the receiver on does not write it", f"{c.qualname}::{g.cls.qualname}.{n}",
+                   not writes, detail="; ".join(f"{e.kind} {org_str(e.org)}" for e in writes[:3]), where=g.loc())
+            for e in writes:
+                key = f"C01/receiver-write-outside-builder:{e.func}:{'.'.join(e.org[2])}"
+                v = raw.setdefault(key, {"e": e, "entries": set()})
+                v["entries"].add(f"{g.cls.qualname}.{n}")
+    run.analysed["non_builder_methods_handing_receiver_on"] = fluent_seen
+    if fluent_seen < 500:
+        raise AnalysisError(f"instance count below floor: non-builder methods handing the receiver on = {fluent_seen}")
+    for key, v in sorted(raw.items()):
+        e = v["e"]
+        run.finding(key, f"{e.func} writes the receiver ({e.kind} {org_str(e.org)}: {e.stmt}) and is reached from "
+                         f"{sorted(v['entries'])}, which return the receiver or an object capturing it without the builder "
+                         f"decorator's copy: the caller's query is altered by the call", where=e.loc, rule="R6",
+                    path=[f"{a} @ {b}" for a, b in e.via] + [f"{e.func} @ {e.loc}: {e.stmt}"])
     run.extra["copy_table"] = {
         cls: {a: {"recopied": r["recopied"], "mutated_by": sorted(r["mutated_by"]), "rebound_by": sorted(r["rebound_by"])}
               for a, r in rows.items() if r["mutated_by"]}
